@@ -4,7 +4,7 @@ From Coq Require Import NArith List Bool.
 From Falcon Require Import Base.Res Graph.NMap Graph.NMapFacts Graph.Graph Graph.GraphInv Graph.Algo Graph.Spec
   Graph.Oracle Graph.OracleProofs Graph.ReachProofs Graph.C11Check Graph.SemiNca3 Graph.Small3 Graph.DomTheory
   Graph.OrderProofs Graph.LoopProofs Graph.BackEdges Graph.PreOrderProofs Graph.DomTreeProofs Graph.ClosureTotal Graph.IdomExists Graph.PreOrderDfs
-  Graph.DomModel Graph.FrontierModel Graph.Unreachable Graph.TopoProofs Graph.AcyclicProofs.
+  Graph.DomModel Graph.FrontierModel Graph.Unreachable Graph.TopoProofs Graph.AcyclicProofs Graph.PostOrderProofs Graph.ReducibleModel Graph.PreOrderIsDfs Graph.LoopModel Graph.LoopTreeModel.
 Import ListNotations.
 Local Open Scope N_scope.
 
@@ -306,3 +306,53 @@ Theorem is_acyclic_iff : forall (V E : Type) (HV : Vertex V) (HE : Edge E) (g : 
   exists b, is_acyclic g root = Ok b /\ (b = true <-> ~ cyclic_from (edge_keys g) root).
 Proof. intros V E HV HE g root Hgi. exact (AcyclicProofs.is_acyclic_correct g Hgi root). Qed.
 Print Assumptions is_acyclic_iff.
+
+(* [U] post_order_perm + valid DFS post-order for the MODEL function: a duplicate-free enumeration of exactly the
+   reachable vertices, root last, and for every edge a -> b: b is listed before a, or b reaches a (b was an
+   unfinished ancestor of a, or a itself) *)
+Theorem post_order_correct : forall (V E : Type) (HV : Vertex V) (HE : Edge E) (g : graph V E) root,
+  GraphInv.graph_inv g -> has_vertex g root = true ->
+  exists l, compute_post_order g root = Ok l /\ NoDup l /\ (forall v, In v l <-> reach (edge_keys g) root v) /\
+    (exists l', l = l' ++ [root]) /\
+    (forall l1 a l2, l = l1 ++ a :: l2 -> forall b, edge (edge_keys g) a b -> In b l1 \/ reach (edge_keys g) b a).
+Proof. intros V E HV HE g root Hgi. exact (PostOrderProofs.compute_post_order_correct g Hgi root). Qed.
+Print Assumptions post_order_correct.
+
+(* [U] reducible_correct for the MODEL function, given that the idom map passes idom_check: Hecht-Ullman *)
+Theorem is_reducible_correct : forall (V E : Type) (HV : Vertex V) (HE : Edge E) (g : graph V E) r m,
+  GraphInv.graph_inv g -> has_vertex g r = true ->
+  compute_immediate_dominators g r = Ok m -> idom_check (vertex_indices g) (edge_keys g) r m = true ->
+  exists b, is_reducible g r = Ok b /\ (b = true <-> forward_edges_acyclic (edge_keys g) r).
+Proof. intros V E HV HE g r m Hgi Hr. exact (ReducibleModel.is_reducible_correct g Hgi r Hr m). Qed.
+Print Assumptions is_reducible_correct.
+
+(* [U] pre_order_is_dfs: the list returned by the MODEL of compute_pre_order is a depth-first pre-order in the
+   relational sense (PreOrderIsDfs.explore: recursive DFS exploring the successors of each new vertex in some order) *)
+Theorem pre_order_is_dfs : forall (V E : Type) (HV : Vertex V) (HE : Edge E) (g : graph V E) r l,
+  compute_pre_order g r = Ok l -> explore g [] r l.
+Proof. intros V E HV HE g r l. exact (PreOrderIsDfs.compute_pre_order_is_dfs g r l). Qed.
+Print Assumptions pre_order_is_dfs.
+
+(* [U] loops_correct for the MODEL function, given that the idom map passes idom_check: headers = targets of back
+   edges, node set of the loop of h = the textbook natural loop (unreachable vertices are never absorbed) *)
+Theorem compute_loops_correct : forall (V E : Type) (HV : Vertex V) (HE : Edge E) (g : graph V E) r m,
+  GraphInv.graph_inv g -> has_vertex g r = true ->
+  compute_immediate_dominators g r = Ok m -> idom_check (vertex_indices g) (edge_keys g) r m = true ->
+  exists loops, compute_loops g r = Ok loops /\ nsorted (map fst loops) /\
+    (forall h, In h (map fst loops) <-> is_header (edge_keys g) r h) /\
+    (forall h L, In (h, L) loops -> forall x, In x L <-> in_loop (edge_keys g) r h x).
+Proof. intros V E HV HE g r m Hgi Hr. exact (LoopModel.compute_loops_correct g Hgi r Hr m). Qed.
+Print Assumptions compute_loops_correct.
+
+(* [U] loop_tree_correct for the MODEL function, given that the idom map passes idom_check: a consistent graph
+   whose vertices are exactly the natural loops (keyed by header) with an edge outer -> inner exactly when the
+   loop of inner is nested in the loop of outer *)
+Theorem compute_loop_tree_correct : forall (V E : Type) (HV : Vertex V) (HE : Edge E) (g : graph V E) r m,
+  GraphInv.graph_inv g -> has_vertex g r = true ->
+  compute_immediate_dominators g r = Ok m -> idom_check (vertex_indices g) (edge_keys g) r m = true ->
+  exists loops t, compute_loops g r = Ok loops /\ compute_loop_tree g r = Ok t /\ GraphInv.graph_inv t /\
+    (forall h L, vertex t h = Ok (h, L) <-> In (h, L) loops) /\
+    (forall h, has_vertex t h = true <-> is_header (edge_keys g) r h) /\
+    (forall a b, has_edge t a b = true <-> loop_nested (edge_keys g) r a b).
+Proof. intros V E HV HE g r m Hgi Hr. exact (LoopTreeModel.compute_loop_tree_correct g Hgi r Hr m). Qed.
+Print Assumptions compute_loop_tree_correct.
